@@ -11,6 +11,7 @@ import (
 	"github.com/IrineSistiana/mosproxy/internal/dnsmsg"
 	"github.com/IrineSistiana/mosproxy/internal/dnsutils"
 	"github.com/IrineSistiana/mosproxy/internal/pool"
+	"github.com/IrineSistiana/mosproxy/internal/verifhook"
 	"github.com/quic-go/quic-go"
 	"github.com/rs/zerolog"
 )
@@ -74,6 +75,9 @@ func (t *QuicTransport) Close() error {
 		return nil
 	}
 	t.closed = true
+	if verifhook.On {
+		verifhook.Ev("qt.close", t, t.c)
+	}
 	t.cancelCtx(ErrClosedTransport)
 	if t.c != nil {
 		t.c.CloseWithError(quic.ApplicationErrorCode(_DOQ_NO_ERROR), "")
@@ -112,6 +116,9 @@ func (t *QuicTransport) ExchangeContext(ctx context.Context, q []byte) (*dnsmsg.
 
 func (t *QuicTransport) exchangePayload(ctx context.Context, payload []byte) (*dnsmsg.Msg, error) {
 	retry := 0
+	if verifhook.On {
+		verifhook.Ev("qt.start", t, ctx)
+	}
 	for {
 		c, newConn, err := t.getConn(ctx)
 		if err != nil {
@@ -122,8 +129,14 @@ func (t *QuicTransport) exchangePayload(ctx context.Context, payload []byte) (*d
 		if err != nil {
 			if !newConn && retry < 5 && !ctxIsDone(ctx) {
 				retry++
+				if verifhook.On {
+					verifhook.Ev("qt.try", t, ctx, c, newConn, false, retry, true, false)
+				}
 				continue
 			}
+		}
+		if verifhook.On {
+			verifhook.Ev("qt.try", t, ctx, c, newConn, err == nil, retry, false, ctxIsDone(ctx))
 		}
 		return b, err
 	}
@@ -182,12 +195,18 @@ func (t *QuicTransport) exchangeStream(ctx context.Context, payload []byte, stre
 func (t *QuicTransport) getConn(ctx context.Context) (_ quic.Connection, newConn bool, _ error) {
 	t.m.Lock()
 	if t.closed {
+		if verifhook.On {
+			verifhook.Ev("qt.getconn", t, ctx, "closed", nil, nil)
+		}
 		t.m.Unlock()
 		return nil, false, ErrClosedTransport
 	}
 
 	if t.c != nil {
 		if !ctxIsDone(t.c.Context()) {
+			if verifhook.On {
+				verifhook.Ev("qt.getconn", t, ctx, "reuse", nil, t.c)
+			}
 			t.m.Unlock()
 			return t.c, false, nil
 		}
@@ -195,6 +214,9 @@ func (t *QuicTransport) getConn(ctx context.Context) (_ quic.Connection, newConn
 		t.c = nil
 	}
 	if dc := t.dialingCall; dc != nil {
+		if verifhook.On {
+			verifhook.Ev("qt.getconn", t, ctx, "join", dc, nil)
+		}
 		t.m.Unlock()
 		c, err := dc.wait(ctx)
 		return c, true, err
@@ -204,6 +226,9 @@ func (t *QuicTransport) getConn(ctx context.Context) (_ quic.Connection, newConn
 		done: make(chan struct{}),
 	}
 	t.dialingCall = dc
+	if verifhook.On {
+		verifhook.Ev("qt.getconn", t, ctx, "dial", dc, nil)
+	}
 	t.m.Unlock()
 	go t.runDialingCall(dc)
 	c, err := dc.wait(ctx)
@@ -217,6 +242,9 @@ func (t *QuicTransport) runDialingCall(call *dialingQuicCall) {
 
 	t.m.Lock()
 	t.dialingCall = nil
+	if verifhook.On {
+		verifhook.Ev("qt.dialed", t, call, c, err == nil, t.closed)
+	}
 	if t.closed {
 		t.m.Unlock()
 		if c != nil {
@@ -224,6 +252,9 @@ func (t *QuicTransport) runDialingCall(call *dialingQuicCall) {
 		}
 		// Don't leave the exchanges that are waiting for this dial hanging.
 		call.err = ErrClosedTransport
+		if verifhook.On {
+			verifhook.Ev("qt.signal", t, call)
+		}
 		close(call.done)
 		return
 	}
@@ -231,6 +262,9 @@ func (t *QuicTransport) runDialingCall(call *dialingQuicCall) {
 	t.m.Unlock()
 
 	call.c, call.err = c, err
+	if verifhook.On {
+		verifhook.Ev("qt.signal", t, call)
+	}
 	close(call.done)
 
 	if err != nil {
@@ -253,8 +287,14 @@ type dialingQuicCall struct {
 func (call *dialingQuicCall) wait(ctx context.Context) (quic.Connection, error) {
 	select {
 	case <-ctx.Done():
+		if verifhook.On {
+			verifhook.Ev("qt.wait", call, ctx, false)
+		}
 		return nil, context.Cause(ctx)
 	case <-call.done:
+		if verifhook.On {
+			verifhook.Ev("qt.wait", call, ctx, true)
+		}
 		return call.c, call.err
 	}
 }
